@@ -125,3 +125,71 @@ Example ex_payoff_vector :
   adata (payoff_vector (T:=Q) ([2; 2; 2]%nat, [1; 2; 3; 4; 5; 6; 7; 8]%Q) [Mixed [1#2; 1#2]%Q; Pure 1]) = [3; 7]%Q /\
   Forall2 act_ok [Mixed [1#2; 1#2]%Q; Pure 1] [2; 2]%nat.
 Proof. split; [vm_compute; reflexivity | repeat constructor]. Qed.
+
+(* ================= domination (Dominated.v, ProofsDom.v; uses C04_minmax_certificate) =================
+   is_dominated(action, tol) through optimize.minmax (exact arithmetic, pivoting tolerances 0): given the optimality
+   certificate of minmax (its inner simplex run ended with status 0 - termination is C04_minmax_terminates_full,
+   not proved), the answer is true exactly when some mixed action over the OTHER own actions earns more than tol
+   above the action against every opponent profile.  adv P a w i j = payoff[other_i, j] - payoff[a, j]. *)
+From QE Require C04.Model C04.Proofs C04.ProofsMM2 Base.PivotProofs.
+From QE Require Import C14.Dominated C14.ProofsDom.
+
+Theorem C14_dominated_spec : forall (P : arr Q) a tol max_iter n0 osh,
+  shape P = n0 :: osh -> osh <> [] -> (2 <= n0)%nat -> (0 < size osh)%nat ->
+  C04.ProofsMM2.minmax_inner_status (n0 - 1) (size osh) (diff_game P a) max_iter = 0%nat ->
+  (is_dominated P a tol max_iter C04.Proofs.opts0 = true <->
+   exists sigma : nat -> Q,
+     (forall i, (i < n0 - 1)%nat -> 0 <= sigma i)%Q /\ (Base.PivotProofs.sumQ (n0 - 1) sigma == 1)%Q /\
+     forall j, (j < size osh)%nat -> (tol < Base.PivotProofs.sumQ (n0 - 1) (fun i => sigma i * adv P a (size osh) i j))%Q).
+Proof. exact dominated_spec. Qed.
+Print Assumptions C14_dominated_spec.
+
+Example ex_dominated : let P : arr Q := ([3; 2]%nat, [0; 0; 3; -1; -1; 3]%Q) in
+  C04.ProofsMM2.minmax_inner_status 2 2 (diff_game P 0) 100 = 0%nat /\
+  is_dominated P 0 (1 # 2) 100 C04.Proofs.opts0 = true /\ is_dominated P 1 0 100 C04.Proofs.opts0 = false /\
+  dominated_by_pure P 0 0%Q = false.     (* action 0 is dominated only by the mixture (1/2, 1/2) of actions 1 and 2 *)
+Proof. vm_compute. auto. Qed.
+
+(* ================= polymatrix games (ProofsPoly.v) =================
+   others i N: the players other than i in cyclic order; hh_entry pm i p ai ap = pm[i][p][ai, ap];
+   poly_sum pm a i N = sum over p in others i N of pm[i][p][a_i, a_p].
+   hh g p1 a1 p a stands for the entry (p, a) of numpy.linalg.lstsq's answer inside hh_payoff_player(g, p1, a1);
+   lstsq_exact_on hh g nums: whenever that system is consistent the answer solves it exactly (assumption on
+   numpy, stated as a premise; from_nf_pm hh is PolymatrixGame.from_nf's dictionary). *)
+From QE Require Import C14.ProofsPoly.
+
+Theorem C14_polymatrix_to_nfg : forall (nums : list nat) (pm : list (list (arr Q))),
+  (0 < length nums)%nat ->
+  let g := map (poly_player nums pm) (seq 0 (length nums)) in
+  consistent g nums /\ (size nums <> 0%nat -> poly_to_nfg nums pm = Some g) /\
+  forall a i, inr nums a -> (i < length nums)%nat -> (payoff 0 g a i == poly_sum pm a i (length nums))%Q.
+Proof.
+  intros nums pm Hp g. split; [exact (poly_consistent nums pm Hp)|]. split; [exact (poly_to_nfg_some nums pm Hp)|].
+  exact (poly_payoff nums pm).
+Qed.
+Print Assumptions C14_polymatrix_to_nfg.
+
+(* from_nf(to_nfg p) has the same normal form as p (the head-to-head matrices themselves are determined only up
+   to constants moved between opponents: numpy returns the minimum-norm representative) *)
+Theorem C14_polymatrix_roundtrip : forall (hh : game Q -> nat -> nat -> nat -> nat -> Q) (nums : list nat) (pm0 : list (list (arr Q))),
+  (0 < length nums)%nat ->
+  let N := length nums in
+  let g0 := map (poly_player nums pm0) (seq 0 N) in
+  let g1 := map (poly_player nums (from_nf_pm hh nums g0)) (seq 0 N) in
+  lstsq_exact_on hh g0 nums ->
+  forall a i, inr nums a -> (i < N)%nat -> (payoff 0 g1 a i == payoff 0 g0 a i)%Q.
+Proof. exact polymatrix_roundtrip. Qed.
+Print Assumptions C14_polymatrix_roundtrip.
+
+Example ex_lstsq_exact : forall (nums : list nat) (pm0 : list (list (arr Q))),
+  lstsq_exact_on (fun _ p1 a1 p a => hh_entry pm0 p1 p a1 a) (map (poly_player nums pm0) (seq 0 (length nums))) nums.
+Proof. exact lstsq_exact_inhabited. Qed.
+Example ex_poly : let pm : list (list (arr Q)) :=
+    [[dummy; ([2; 2]%nat, [1; 2; 3; 4]%Q); ([2; 3]%nat, [0; 1; 0; 5; 0; 7]%Q)];
+     [([2; 2]%nat, [1; 0; 0; 1]%Q); dummy; ([2; 3]%nat, [1; 1; 1; 2; 2; 2]%Q)];
+     [([3; 2]%nat, [0; 0; 1; 1; 2; 2]%Q); ([3; 2]%nat, [3; 0; 0; 3; 1; 1]%Q); dummy]] in
+  match poly_to_nfg [2; 2; 3]%nat pm with
+  | Some g => nfg_getitem 0%Q g [1; 0; 2]%nat = [3 + 7; 0 + 1; 2 + 1]%Q
+  | None => False
+  end.
+Proof. vm_compute. reflexivity. Qed.
